@@ -29,7 +29,10 @@ def handle(task):
     from .. import present, impl_pv
     for pname in task["pres"]:
         pv = present.present(jobs, PRES[pname])
-        res = impl_pv.run_pipeline(pv, "x", task.get("pi"))
+        # schedule diversity at no extra cost: the reversed presentation also
+        # runs under the reversed hash-rank order of created objects
+        pi = task.get("pi") or ("rev" if pname == "reversed" else None)
+        res = impl_pv.run_pipeline(pv, "x", pi)
         run = {"pres": pname, "status": res["status"], "exc": res.get("exc"),
                "text": res.get("text"), "problems": []}
         if res["status"] != "ok":
